@@ -115,6 +115,18 @@ pub fn c02(ctx: &Ctx, rep: &mut Report) {
         },
         |c| {
             let mut o = run_c02(c);
+            if matches!(o.verdict, vf_common::Verdict::Pass) {
+                // bytes whose Push frames REACHED the reading endpoint before its connection task finished belong to the stream: the reader
+                // must get them before its end-of-stream ("reads to end-of-stream => the two byte sequences are equal" cannot be blamed
+                // on the connection end for bytes that did arrive)
+                let run = run_case(c);
+                let a = Analysis::new(c, &run);
+                if let Err((sig, msg)) = a.end_of_stream() {
+                    if sig == "c05-delivered-data-lost" {
+                        return Outcome::violation("c02-bytes-that-arrived-not-readable", format!("{msg} | tail: {}", a.ctx(14)));
+                    }
+                }
+            }
             o.classes.push("connection-ended");
             o
         },
